@@ -11,15 +11,17 @@
  *
  * input, one case per line:
  *   <id> <n> <wps> <s_re> <s_im> <h[0]_re> <h[0]_im> ... (n*n entries, row major)
- *   doubles as 16 hex digits of their bit pattern; wps = comma separated precisions
- *   for the m variant ("-" for none).
+ *   doubles as 16 hex digits of their bit pattern; wps = comma separated precision specs
+ *   for the m variant ("-" for none): "<wp>" = matrix, shift and output all at wp bits,
+ *   "<wpH>:<wpS>:<wpO>" = matrix entries : shift : output at different precisions (the entries are
+ *   doubles, hence exactly representable at every precision).
  *   shift == 0 exactly  -> the unshifted entry point is called,
  *   otherwise           -> the shifted one.
  *
  * output lines (flushed one by one):
  *   F <id> <re> <im> <exp>                         f variant: (re + i im) * 2^exp
  *   D <id> <re_m> <re_e> <im_m> <im_e>             d variant: mantissas (hex doubles) and exponents
- *   M <id> <wp> <wp_eff> <re_digits> <re_exp> <im_digits> <im_exp> <err_m> <err_e>
+ *   M <id> <spec> <wp_eff> <re_digits> <re_exp> <im_digits> <im_exp> <err_m> <err_e>
  *                                                  m variant: requested precision, mpc_get_prec (output) (what the
  *                                                  function uses for its epsilon), mpf as 0.<hex digits> * 16^exp,
  *                                                  rdpe error bound
@@ -156,22 +158,25 @@ main (int argc, char **argv)
           char *w;
           for (w = strtok_r (wcopy, ",", &ws); w; w = strtok_r (NULL, ",", &ws))
             {
-              long wp = atol (w);
+              /* spec: "<wp>" (everything at wp) or "<wpH>:<wpS>:<wpO>" (matrix : shift : output) */
+              long wpH, wpS, wpO;
+              if (sscanf (w, "%ld:%ld:%ld", &wpH, &wpS, &wpO) != 3)
+                wpH = wpS = wpO = atol (w);
               mpc_t *H = malloc (sizeof (mpc_t) * n * n);
               mpc_t shift, out;
               rdpe_t err;
-              mpc_vinit2 (H, n * n, wp);
-              mpc_init2 (shift, wp);
-              mpc_init2 (out, wp);
+              mpc_vinit2 (H, n * n, wpH);
+              mpc_init2 (shift, wpS);
+              mpc_init2 (out, wpO);
               for (k = 0; k < n * n; k++)
-                mpc_set_d (H[k], hre[k], him[k]);
+                mpc_set_d (H[k], hre[k], him[k]);       /* exact at every precision (>= 53 bits) */
               mpc_set_d (shift, sre, sim);
               rdpe_set (err, rdpe_zero);
               if (shifted)
                 mps_mhessenberg_shifted_determinant (NULL, H, shift, n, out, err);
               else
                 mps_mhessenberg_determinant (NULL, H, n, out, err);
-              printf ("M %s %ld %ld", id, wp, (long)mpc_get_prec (out));
+              printf ("M %s %s %ld", id, w, (long)mpc_get_prec (out));
               print_mpf (mpc_Re (out));
               print_mpf (mpc_Im (out));
               d2hex (rdpe_Mnt (err), b3);
